@@ -9,6 +9,7 @@ package main
 // cfg: max sb batch c b cq(1/0) jam(ms,0=1h).  Ops (model semantics in Model/C09.lean):
 //
 //	s:<k>:<kind> Schedule job k          t:<k>:<kind> ScheduleWithTimeout(30ms)   i:<k>:<kind> Invoke
+//	it:<k>:<kind> InvokeWithTimeout(30ms)          t:<k>:<kind>:<ns> / it:<k>:<kind>:<ns> the same with a timeout of <ns> nanoseconds
 //	as:<k>:<kind> Schedule in its own goroutine (parks at `sched`)   j:<k> its answer
 //	r:<k> open the gate of job k         w:<count>/<busy>/<fin> wait for these counters (hint), then observe
 //	park:<pt>:<n>  wp:<pt>:<n>  rel:<pt>   close  aclose  jclose  pre:<n>  exp:<ms>  sleep:<ms>  expire:<n>
@@ -142,6 +143,17 @@ func c09Err(err error) string {
 		return "qclosed"
 	}
 	return "err-other"
+}
+
+// timeout of a `t` / `it` op: 30 ms, or the optional fourth field in nanoseconds (0, tiny and negative values:
+// the call must still answer Timeout on a full queue and nil when there is room)
+func c09Timeout(f []string) time.Duration {
+	if len(f) > 3 {
+		if ns, err := strconv.Atoi(f[3]); err == nil {
+			return time.Duration(ns)
+		}
+	}
+	return 30 * time.Millisecond
 }
 
 func c09Dur(ms int) time.Duration {
@@ -440,14 +452,27 @@ func (e *c09Env) op(tok string) string {
 		e.settle()
 		return fmt.Sprintf("s%d=%s", num(1), r)
 	case "t":
+		to := c09Timeout(f)
 		t0 := time.Now()
-		err := e.pool.ScheduleWithTimeout(e.mkJob(num(1), f[2], 0), 30*time.Millisecond)
+		err := e.pool.ScheduleWithTimeout(e.mkJob(num(1), f[2], 0), to)
 		r := c09Err(err)
-		if err == worker.ErrWorkerPoolScheduleTimeout && time.Since(t0) < 30*time.Millisecond {
+		if err == worker.ErrWorkerPoolScheduleTimeout && time.Since(t0) < to {
 			r = "viol-early-timeout"
 		}
 		e.settle()
 		return fmt.Sprintf("t%d=%s", num(1), r)
+	case "it":
+		// InvokeWithTimeout: the error of ScheduleWithTimeout must come back to the caller
+		job := e.mkJob(num(1), f[2], 0)
+		to := c09Timeout(f)
+		t0 := time.Now()
+		err := worker.NewDefaultInvokable[int](e.pool, func(int) { job() }).InvokeWithTimeout(num(1), to)
+		r := c09Err(err)
+		if err == worker.ErrWorkerPoolScheduleTimeout && time.Since(t0) < to {
+			r = "viol-early-timeout"
+		}
+		e.settle()
+		return fmt.Sprintf("it%d=%s", num(1), r)
 	case "i":
 		job := e.mkJob(num(1), f[2], 0)
 		worker.NewDefaultInvokable[int](e.pool, func(int) { job() }).Invoke(num(1))
@@ -882,8 +907,12 @@ func c09Gen(tier string, rng *rand.Rand, emit func(string)) map[string]interface
 			for ; k <= c+b; k++ {
 				ops = append(ops, fmt.Sprintf("s:%d:f", k))
 			}
-			ops = append(ops, fmt.Sprintf("s:%d:f", k), fmt.Sprintf("t:%d:f", k+1), fmt.Sprintf("i:%d:f", k+2), "w:1/1/0", "r:0",
-				fmt.Sprintf("w:1/0/%d", c+b+1), fmt.Sprintf("t:%d:f", k+3), fmt.Sprintf("w:1/0/%d", c+b+2))
+			// zero, tiny and negative timeouts on the full queue (timeout/3 = 0: no retry interval), then with room again
+			tiny := []int{0, 1, 2, -1000}[(c+2*b)%4]
+			ops = append(ops, fmt.Sprintf("s:%d:f", k), fmt.Sprintf("t:%d:f", k+1), fmt.Sprintf("i:%d:f", k+2), fmt.Sprintf("it:%d:f", k+3),
+				fmt.Sprintf("t:%d:f:%d", k+6, tiny), fmt.Sprintf("it:%d:f:%d", k+7, []int{-1, 0, 2}[b]), "w:1/1/0", "r:0",
+				fmt.Sprintf("w:1/0/%d", c+b+1), fmt.Sprintf("t:%d:f", k+4), fmt.Sprintf("w:1/0/%d", c+b+2), fmt.Sprintf("it:%d:f", k+5), fmt.Sprintf("w:1/0/%d", c+b+3),
+				fmt.Sprintf("t:%d:f:%d", k+8, tiny), fmt.Sprintf("w:1/0/%d", c+b+4))
 			sched(fmt.Sprintf("max=1 sb=1 batch=0 c=%d b=%d", c, b), ops...)
 		}
 	}
@@ -997,6 +1026,7 @@ func c09Gen(tier string, rng *rand.Rand, emit func(string)) map[string]interface
 		stress("max=2 sb=1 batch=1 c=4 b=1000 exp=2 n=%d sub=2 pan=%s slow= mode=s jit=1 seed=%d slowall=1 burst=4 pause=3", n, pick(n, 3), rng.Intn(1000))
 		stress("max=2 sb=1 batch=1 c=1 b=0 exp=10 n=%d sub=4 pan=%s slow=%s mode=s jit=1 seed=%d tiny=1", n, pick(n, 5), pick(n, 10), rng.Intn(1000))
 		stress("max=1 sb=1 batch=0 c=1 b=1 exp=0 n=%d sub=3 pan=%s slow=%s mode=t jit=0 seed=%d tiny=1", n, pick(n, 5), pick(n, 10), rng.Intn(1000))
+		stress("max=2 sb=1 batch=1 c=1 b=0 exp=0 n=%d sub=3 pan=%s slow=%s mode=it jit=1 seed=%d tiny=1", n, pick(n, 4), pick(n, 12), rng.Intn(1000))
 	}
 	return map[string]interface{}{"directed_schedules": nd, "stress_cases": ns, "exhaustive": false,
 		"windows": []string{"nil-handler", "slow-handler", "panic-exit", "expiry-race", "queue-full/timeout", "schedule-closed-check", "worker-closed-check", "close-afterFlag", "afterJob", "tryspawn/PreAlloc", "jam-at-maximum"}}
